@@ -140,7 +140,7 @@ theorem canon_file : Canon e0 fileV items := by
   exact this
 
 theorem fix_items : OT.fixL false items = items := by
-  simp [items, verO, projO, projItems, childO, OT.fixL, bumpOff]
+  simp [items, verO, projO, projItems, childO, OT.fixL, bumpOff, OT.fixEo]
 
 /-- the written token stream -/
 def stream : List WTok :=
@@ -330,7 +330,7 @@ theorem identText1 (c : Char) (h1 : IsAscii c ∧ isIdentChar (asciiB c) = true)
 theorem lexW_kw (arm : Nat) (tag : List Char) (ty so : Nat) (fields : List Val) (htag : IdentText tag)
     (hf : ∀ f ∈ fields, FieldLex f) : OT.lexW (.node arm tag false ty so 0 fields []) := by
   rw [OT.lexW]
-  exact ⟨htag, (by intro h; cases h), hf, (by rw [OT.lexWL]; trivial), (by intro h; cases h), (fun _ => rfl)⟩
+  exact ⟨htag, (by intro h; cases h), hf, (by rw [OT.lexWL]; trivial), (fun _ => rfl)⟩
 
 theorem lexW_items : OT.lexWL items := by
   unfold items verO projO projItems childO
@@ -338,7 +338,7 @@ theorem lexW_items : OT.lexWL items := by
   refine ⟨lexW_kw _ _ _ _ _ (identText1 'V' (by decide) (by decide)) ?_, ?_, trivial⟩
   · intro f hf; simp [verFields] at hf; rcases hf with rfl | rfl <;> trivial
   · rw [OT.lexW]
-    refine ⟨identText1 'P' (by decide) (by decide), (by intro _; decide), ?_, ?_, ?_, (by intro h; cases h)⟩
+    refine ⟨identText1 'P' (by decide) (by decide), (by intro _; decide), ?_, ?_, (by intro h; cases h)⟩
     · intro f hf
       simp [projFields] at hf
       rcases hf with rfl | rfl | rfl
@@ -348,6 +348,5 @@ theorem lexW_items : OT.lexWL items := by
     · rw [OT.lexWL, OT.lexWL, OT.lexWL]
       refine ⟨by rw [OT.lexW]; exact cmt_lex, lexW_kw _ _ _ _ _ (identText1 'C' (by decide) (by decide)) ?_, trivial⟩
       intro f hf; simp [childFields] at hf; subst hf; trivial
-    · intro _ text off hl; simp at hl
 
 end A2l.Tree.Sample
